@@ -894,3 +894,72 @@ func ruleNothingAfterCloseDecision(c *Ctx, rule string) {
 	}
 	c.floor(rule, n, 1, "hand-overs to the sender in the server's send method")
 }
+
+// ruleNoSendAfterFailedSend (C13.14): a message that could not be sent completely is the last thing the stream sends.
+func ruleNoSendAfterFailedSend(c *Ctx, rule string) {
+	c.rule(rule, "after a response message could not be sent completely (its message frame and part of its continuations may be on the wire) no further message is put on that stream: in the server send method the call into the sender is reached only with a sticky error field tested nil under the write mutex, and that field is set on every path on which the sender returned an error")
+	w := c.W
+	a := w.Anchors()
+	lf := w.Locks()
+	n := 0
+	for _, s := range c.senderSendSites() {
+		fn := s.Parent()
+		rn := recvNamed(fn)
+		if rn == nil || a.SS == nil || rn.Obj() != a.SS.Obj() {
+			continue
+		}
+		n++
+		name := w.Short(fn)
+		call, isCall := s.(*ssa.Call)
+		if !isCall {
+			c.fail(rule, name+": sender called synchronously", w.At(s), "the sender is not called with a plain call: its result cannot be recorded")
+			continue
+		}
+		// (1) the sticky field
+		var sticky FieldRef
+		found := false
+		for _, f := range factsAt(call) {
+			x, op, y, ok := cmpFact(f)
+			if !ok || op != token.EQL || !isNilConst(y) {
+				continue
+			}
+			if fr, _, isF := loadedField(x); isF && fr.Type == rn.Obj().Name() && isErrorType(x.Type()) {
+				if ld, isI := stripConv(x).(ssa.Instruction); isI && len(perStreamLocks(lf.MustAt(ld), rn)) > 0 {
+					sticky, found = fr, true
+				}
+			}
+		}
+		if !found {
+			c.fail(rule, name+": earlier send failure refuses this send", w.At(call), "the call into the sender is not dominated by a nil test (under the write mutex) of an error field of the stream: after a send that failed part way, a later SendMsg puts a new message frame behind the incomplete message")
+			continue
+		}
+		c.ok(rule, name+": earlier send failure refuses this send", w.At(call), "dominated by "+sticky.String()+" == nil")
+		// (2) set on every failing path
+		isSet := func(in ssa.Instruction) bool {
+			st, ok := in.(*ssa.Store)
+			if !ok {
+				return false
+			}
+			fr, _, isF := fieldOfAddr(st.Addr)
+			if !isF || fr != sticky {
+				return false
+			}
+			if isErrorOfCall(st.Val, call) {
+				return true
+			}
+			nn, _ := nonNilError(st.Val, st, 0)
+			return nn
+		}
+		nilEdge := func(pred, succ *ssa.BasicBlock) bool {
+			ef, has := edgeFact(pred, succ)
+			if !has {
+				return false
+			}
+			x, op, y, ok := cmpFact(normFact(ef))
+			return ok && op == token.EQL && isNilConst(y) && isErrorOfCall(x, call)
+		}
+		esc := pathAvoidingE(regionRoot(fn), call, isExit, isSet, nilEdge)
+		c.check(esc == nil, rule, name+": a failed send is remembered", w.At(call), "every path on which the sender's error is not known nil stores it in "+sticky.String(), "the error of a failed send is not stored in "+sticky.String()+" on every failing path: the next SendMsg is not refused")
+	}
+	c.floor(rule, n, 1, "server send method")
+}
